@@ -269,7 +269,26 @@ def run(ctx, spec):
 
 def replay(ctx, case):
     env.setup()
-    if 'lines' in case:
+    if 'api_ops' in case:
+        from ..session import Session
+        from backends.libwayland_debug_output import parse
+        s = Session()
+        nid = {}
+        for op, cid in case['api_ops']:
+            if op == 'open':
+                s.cm.open_connection(0.0, cid, None)
+                nid[cid] = 2
+            elif op == 'close':
+                s.cm.close_connection(0.0, cid)
+            else:
+                _, msg = parse.message('[1.000]  -> wl_display@1.sync(new id wl_callback@%d)' % nid[cid])
+                nid[cid] += 1
+                s.cm.message(cid, msg)
+        names = [c.name() for c in s.cm.connections()]
+        print('connection names:', names)
+        if len(set(names)) != len(names):
+            ctx.violation('connection-names', 'names repeat: %r' % names, case)
+    elif 'lines' in case:
         from ..session import Session
         s = Session()
         s.feed([l + '\n' for l in case['lines']])
